@@ -545,8 +545,12 @@ func c02EngineFamily(cf *CaseFile, r *Rng, thorough bool, maxlen int) error {
 					c := c02TextCsv[ch.id]
 					switch {
 					case thorough:
+						vers := []int32{1, 2}
+						if primary {
+							vers = []int32{0, 1, 2, 3, -1}
+						}
 						for _, seq := range c02Seqs(c, true) {
-							for _, ver := range []int32{0, 1, 2, 3, -1} {
+							for _, ver := range vers {
 								add(seq, ver)
 							}
 						}
